@@ -132,7 +132,7 @@ pub fn run(tier: &str, seed: u64, outdir: &str) {
         let cdoc = serde_json::to_value(c).unwrap();
         for ver in versions.iter() {
             // ---- T: legacy -> W3C, valid and invalid rest ----
-            for (vname, edit) in [("valid", 0u8), ("registry-id-without-registry-value", 1)] {
+            for (vname, edit) in [("valid", 0u8), ("registry-id-without-registry-value", 1), ("registry-id-without-witness", 3), ("registry-id-without-registry", 4)] {
                 let mut d = cdoc.clone();
                 match edit {
                     1 => {
@@ -141,6 +141,13 @@ pub fn run(tier: &str, seed: u64, outdir: &str) {
                             d.as_object_mut().unwrap().remove("witness");
                         } else {
                             d["rev_reg_id"] = json!(vw::REG_ID);
+                        }
+                    }
+                    3 | 4 => {
+                        if rev_idx.is_some() {
+                            d.as_object_mut().unwrap().remove(if edit == 3 { "witness" } else { "rev_reg" });
+                        } else {
+                            continue;
                         }
                     }
                     2 => {
